@@ -1149,6 +1149,126 @@ def classify(ops, kind):
     return f'history-dependent:{last["op"]}:{e}'
 
 
+
+# ============================================================================ mesh construction must not touch the caller's arrays
+
+def _unsorted_source(fam):
+    """(class name, p, t) of a small valid mesh whose connectivity columns are NOT sorted row-wise"""
+    import skfem
+    if fam == 'tri':
+        m = skfem.MeshTri.init_tensor(np.array([0., 1., 3.]), np.array([0., 2., 3.]))
+        t = m.t.copy()
+        t[:, ::2] = t[[2, 0, 1]][:, ::2]            # rotate the vertices of every other triangle
+        return 'MeshTri', m.p.copy(), t
+    if fam == 'quad':
+        m = skfem.MeshQuad.init_tensor(np.array([0., 1., 3.]), np.array([0., 2., 3.]))
+        t = m.t.copy()
+        t[:, ::2] = t[[2, 3, 0, 1]][:, ::2]         # cyclic shift keeps the cells valid
+        return 'MeshQuad', m.p.copy(), t
+    if fam == 'tet':
+        m = skfem.MeshTet.init_tensor(np.array([0., 1., 2.]), np.array([0., 2.]), np.array([0., 1.]))
+        t = m.t.copy()
+        t[:, ::2] = t[[1, 2, 0, 3]][:, ::2]
+        return 'MeshTet', m.p.copy(), t
+    if fam == 'hex':
+        m = skfem.MeshHex.init_tensor(np.array([0., 1., 2.]), np.array([0., 2.]), np.array([0., 1.]))
+        return 'MeshHex', m.p.copy(), m.t.copy()
+    if fam == 'line':
+        return 'MeshLine', np.array([[0., 1., 3., 4.]]), np.array([[1, 3, 0], [0, 2, 1]])     # cells [1,0], [3,2], [0,1]... as columns
+    if fam == 'wedge':
+        m = skfem.MeshTri.init_tensor(np.array([0., 1.]), np.array([0., 2.])) * skfem.MeshLine(np.array([0., 1., 2.]))
+        return 'MeshWedge1', m.p.copy(), m.t.copy()
+    raise KeyError(fam)
+
+
+def _mass(m, ename):
+    import skfem
+    from skfem.helpers import dot, grad
+    bs = skfem.Basis(m, getattr(skfem, ename)())
+
+    @skfem.BilinearForm
+    def a(u, v, w):
+        return u * v * (1.0 + w.x[0]) + dot(grad(u), grad(v))
+    return canon(a.assemble(bs))
+
+
+P1 = {'tri': 'ElementTriP2', 'quad': 'ElementQuad1', 'tet': 'ElementTetP1', 'hex': 'ElementHex1', 'line': 'ElementLineP2', 'wedge': 'ElementWedge1'}
+HIGHER = {'tri': ['MeshTri2'], 'quad': ['MeshQuad2'], 'tet': ['MeshTet2'], 'hex': ['MeshHex2'], 'line': [], 'wedge': []}
+
+
+def search_constructors(ctx):
+    """(a) every mesh class from caller-owned arrays of every dtype / memory layout, sort_t default and on: the caller's
+    arrays must be bit-for-bit unchanged; (b) new meshes built from a LONG-LIVED mesh (its arrays, from_mesh, quadratic
+    versions and their refinements): the source mesh must be unchanged and must still assemble like a fresh rebuild"""
+    import skfem
+    n = 0
+    for fam in ('tri', 'quad', 'tet', 'hex', 'line', 'wedge'):
+        cname, p0, t0 = _unsorted_source(fam)
+        cls = getattr(skfem, cname)
+        unsorted = bool(np.any(np.sort(t0, axis=0) != t0))
+        # ---- (a) caller-owned arrays
+        for tdt, order, pord, kw in [(a, b, c, d) for a in (np.int32, np.int64) for b in ('C', 'F') for c in ('C', 'F')
+                                     for d in ({}, {'sort_t': True}, {'sort_t': False})]:
+            t_in = np.array(t0, dtype=tdt, order=order)
+            p_in = np.array(p0, dtype=np.float64, order=pord)
+            tb, pb = t_in.tobytes(order='A'), p_in.tobytes(order='A')
+            tc, pc = t_in.copy(), p_in.copy()
+            try:
+                cls(p_in, t_in, **kw)
+            except Exception as e:      # noqa: BLE001 - an invalid combination (e.g. sorting breaks a quadrilateral) may be rejected
+                ctx.hist('constructor_raises', f'{cname}:{type(e).__name__}')
+            n += 1
+            ctx.count(('ctor', cname, tdt.__name__, order, pord, repr(kw)), nontrivial=unsorted)
+            if not (np.array_equal(t_in, tc) and t_in.tobytes(order='A') == tb and np.array_equal(p_in, pc) and p_in.tobytes(order='A') == pb):
+                ctx.fail(f'operand-mutated:constructor:{cname}',
+                         f'{cname}(p, t{", " + repr(kw) if kw else ""}) changed the caller\'s array ({tdt.__name__}, {order}-contiguous): '
+                         f't {tc.tolist()} -> {t_in.tolist()}',
+                         {'site': 'constructor', 'class': cname, 'p': p0.tolist(), 't': t0.tolist(), 'dtype': tdt.__name__, 'order': order,
+                          'p_order': pord, 'kwargs': kw})
+        # ---- (b) a long-lived source mesh with unsorted connectivity, caches warm
+        try:
+            ms = cls(p0.copy(), np.array(t0, dtype=np.int32, order='C'), sort_t=False)
+        except Exception as e:      # noqa: BLE001
+            ctx.hist('constructor_raises', f'{cname}:source:{type(e).__name__}')
+            continue
+        ref = _mass(ms, P1[fam])
+        ms.facets, ms.t2f, ms.f2t, ms._mapping()
+        derived = [('same-class(p, t)', lambda: cls(ms.p, ms.t)),
+                   ('same-class(p, t, sort_t=True)', lambda: cls(ms.p, ms.t, sort_t=True)),
+                   ('from_mesh', lambda: cls.from_mesh(ms)),
+                   ('refined', lambda: ms.refined())]
+        if fam in ('tri', 'tet'):
+            derived.append(('oriented', lambda: ms.oriented()))
+        for hname in HIGHER[fam]:
+            hcls = getattr(skfem, hname)
+            derived.append((f'{hname}.from_mesh', lambda hcls=hcls: hcls.from_mesh(ms)))
+            derived.append((f'{hname}.from_mesh.refined', lambda hcls=hcls: hcls.from_mesh(ms).refined()))
+            derived.append((f'{hname}.from_mesh.refined(marked)', lambda hcls=hcls: hcls.from_mesh(ms).refined(np.array([0]))))
+            derived.append((f'{cname}.from_mesh({hname})', lambda hcls=hcls: cls.from_mesh(hcls.from_mesh(ms))))
+        for dname, thunk in derived:
+            mon = Monitor()
+            mon.watch(ms, 'source_mesh')
+            try:
+                thunk()
+            except Exception as e:      # noqa: BLE001 - not every derived construction exists for every class
+                ctx.hist('constructor_raises', f'{cname}:{dname}:{type(e).__name__}')
+            n += 1
+            ctx.count(('derived', cname, dname), nontrivial=unsorted)
+            ch = mon.changed()
+            data = {'site': 'constructor-derived', 'class': cname, 'p': p0.tolist(), 't': t0.tolist(), 'derived': dname}
+            if ch:
+                ctx.fail(f'operand-mutated:construction-from-mesh:{cname}', f'{dname} of a long-lived {cname} changed arrays of the source mesh: {ch[:4]}',
+                         dict(data, changed=ch[:6]))
+            try:
+                again = _mass(ms, P1[fam])
+            except Exception as e:      # noqa: BLE001
+                again = ('exception', f'{type(e).__name__}: {e}')
+            if again != ref and (not isinstance(again, tuple) or maxdiff(again, ref) is None or maxdiff(again, ref) > TOL):
+                ctx.fail(f'history-dependent:source-mesh-after:{cname}', f'after {dname} the long-lived {cname} assembles a different matrix than a '
+                         'fresh rebuild from the same arrays', data)
+                break
+    ctx.extra['constructor_search'] = {'constructions': n}
+
 # ============================================================================ search()
 
 def _refute_in_coq(ctx, name, imports, stmt, proof, pending):
@@ -1203,6 +1323,8 @@ def search(ctx):
         if w:
             ctx.fail(f'closure:{name}:kwargs-leak-between-calls',
                      f'{name}: keyword arguments of an earlier call reach the backend of a later call', dict(w, site='closure'))
+    # ---------------- constructors: caller-owned arrays and long-lived source meshes
+    search_constructors(ctx)
     # ---------------- (b)+(c) random histories over a shared pool
     nhist = ctx.n(70, 700)
     worst, nops, nprob = 0.0, 0, 0
@@ -1333,5 +1455,7 @@ def replay(ctx, data):
         ctx.log('options at backend, second call:', code_dict(eff[-1]), ' fresh closure:', code_dict(fresh[0]))
         if code_dict(eff[-1]) != code_dict(fresh[0]):
             ctx.fail(data['key'], data['what'], inp)
+    elif site in ('constructor', 'constructor-derived'):
+        search_constructors(ctx)
     else:
         ctx.log('unknown replay site', site)
